@@ -25,7 +25,7 @@ def main():
         ddir = os.path.join(wt, 'out', 'x'); os.makedirs(ddir, exist_ok=True)
         shutil.copy(os.path.join(src, 'demo.py'), ddir)
         demo = os.path.join(ddir, 'demo.py')
-        env = dict(os.environ, PYTHONPATH=wt)
+        env = dict(os.environ, PYTHONPATH=wt, FPY_CHECKOUT=wt, FPY_ROOT=wt, FPY2_ROOT=wt)
         r0 = sh(['/venv/bin/python', demo], cwd=wt, env=env, timeout=900)
         meta['demo_without_patch_exit'] = r0.returncode
         meta['ran'].append('demo.py on the unchanged worktree')
